@@ -108,6 +108,13 @@ func cmdFn(repo string, names []string, verbose bool, timeout int) int {
 	for _, name := range specs.Order {
 		if fn := ld.funcs[name]; fn != nil {
 			if want, ok := pinnedSigs[name]; ok && want != sigKey(fn) {
+				if sameButReceiver(fn, want, sigKey(fn)) {
+					recvNowPointer[name] = true
+					continue
+				}
+				if paramsAdded(want, sigKey(fn)) {
+					continue
+				}
 				specs.Void[name] = true
 				fmt.Printf("%s: signature changed, contract void\n", name)
 			}
